@@ -225,7 +225,7 @@ func runRendezvous(c Case, kind string, tr *hx.Trace) {
 
 	select {
 	case id = <-sent:
-	case <-time.After(10 * time.Second):
+	case <-time.After(30 * time.Second):
 		fail("deadlock:"+label, "the requester never reached its outbound send")
 
 		return
@@ -280,7 +280,7 @@ func runRendezvous(c Case, kind string, tr *hx.Trace) {
 	for k := 0; k < rv.During; k++ {
 		respond(next)
 
-		if st, ok := waitHandlers(handlerFn, k+1, 5*time.Second); !ok {
+		if st, ok := waitHandlers(handlerFn, k+1, 20*time.Second); !ok {
 			if len(st) <= k {
 				// the handler returned: it found no channel although the requester is inside the send of its request
 				// (the registration must precede the send, or a quick response is dropped and the requester times out)
@@ -301,7 +301,7 @@ func runRendezvous(c Case, kind string, tr *hx.Trace) {
 
 	if rv.Waiting > 0 && rv.During == 0 && !rv.SendFail {
 		// wait until the requester sits in its select
-		deadline := time.Now().Add(10 * time.Second)
+		deadline := time.Now().Add(30 * time.Second)
 
 		for {
 			st := goroutinesIn(requesterFn)
@@ -327,7 +327,7 @@ func runRendezvous(c Case, kind string, tr *hx.Trace) {
 
 	select {
 	case res = <-resCh:
-	case <-time.After(20 * time.Second):
+	case <-time.After(40 * time.Second):
 		fail("deadlock:"+label, "the requester did not return although a response was available")
 
 		return
@@ -362,7 +362,7 @@ func runRendezvous(c Case, kind string, tr *hx.Trace) {
 		left--
 	}
 
-	states, settled := waitHandlers(handlerFn, left, 10*time.Second)
+	states, settled := waitHandlers(handlerFn, left, 30*time.Second)
 	if !settled {
 		fail("harness:"+label, fmt.Sprintf("expected %d handlers left at their send, saw %v", left, states))
 
